@@ -76,11 +76,15 @@ def _c20_sweep(tier):
         sites = [{"site": "entry"}, {"site": "exit"}] + ([] if lp else [{"site": "cb", "k": k} for k in range(1, K + 1)])
         if len(evs) > 1:
             sites += [{"site": "entry", "entry": 1}, {"site": "exit", "entry": 1}]
+        if not lp:
+            # the callback itself raises part-way: every one of its first optyx line events
+            kmax, jmax = (2, 6) if tier == "quick" else (min(K, 4), 10)
+            sites += [{"site": "cbi", "k": k, "j": j} for k in range(1, kmax + 1) for j in range(1, jmax + 1)]
         for site in sites:
-            for exc in gen.EXC_CLASSES:
+            for exc in (gen.EXC_CLASSES if site["site"] != "cbi" or tier != "quick" else ["KeyboardInterrupt", "MemoryError"]):
                 f = dict(site, exc=exc)
                 ops = sc["prefix"] + [gen.with_fault(sc["target"], f)] + sc["suffix"]
-                tag = f"sc{i - 1}:{evs[0].get('method')}:K{K}:{site['site']}{site.get('k', '')}e{site.get('entry', 0)}:{exc}"
+                tag = f"sc{i - 1}:{evs[0].get('method')}:K{K}:{site['site']}{site.get('k', '')}j{site.get('j', '')}e{site.get('entry', 0)}:{exc}"
                 yield tag, {"knobs": knobs, "ops": ops}
 
 
